@@ -17,6 +17,7 @@ type rdbParseOptions struct {
 	targetRedisVersion   string
 	targetFunctionExists string
 	failOnModuleAux      bool
+	streamIdleConsumers  bool
 }
 
 func WithTargetRedisVersion(version string) RdbParseOption {
@@ -34,6 +35,16 @@ func WithFunctionExists(functionExists string) RdbParseOption {
 func WithFailOnModuleAux() RdbParseOption {
 	return func(o *rdbParseOptions) {
 		o.failOnModuleAux = true
+	}
+}
+
+// WithStreamIdleConsumers makes the expansion of a stream (StreamParser.ExecCmd) keep
+// the consumers that have no pending entry : XGROUP CREATECONSUMER, as redis'
+// rewriteStreamObject does since 6.2. Without it only the consumers that own pending
+// entries reach the target (through their XCLAIMs).
+func WithStreamIdleConsumers() RdbParseOption {
+	return func(o *rdbParseOptions) {
+		o.streamIdleConsumers = true
 	}
 }
 
